@@ -331,6 +331,14 @@ class AbstractMessageLogEntry(abc.ABC):
         if not isinstance(val, (int, float, bytes, str, type(None), tuple, TupleCoord)):
             val = str(val)
 
+        try:
+            return self._apply_operator(operator, val, expected)
+        except (TypeError, AttributeError):
+            # The operator can't be applied to a value of this type, so it can't match.
+            return False
+
+    @staticmethod
+    def _apply_operator(operator, val, expected):
         if not operator:
             return bool(val)
         elif operator == "==":
